@@ -123,3 +123,55 @@ def compare_traces(trA, trB, map_A, map_F, tol_fn, prop, clause, verdicts, count
                                             "N": ma["completed"], "strain": ma["strain_total"]}})
                 stopped.add(m)
     return stopped
+
+
+def conditioning(world_spec, ops, tol_fn, eps, prop="X"):
+    """Noise floor of a history: execute it again from initial textures perturbed by a
+    relative `eps` (deterministic) and return max(diff / tol) over all compared snapshots.
+    A history that amplifies eps beyond a fraction of the tolerance cannot decide a twin
+    comparison at that tolerance (D-Rex dynamics are exponentially sensitive at high M* and
+    strain): such runs are counted as ill-conditioned, not as violations."""
+    import copy
+
+    base, trA, _ = run_traced(world_spec, ops)
+    spec2 = copy.deepcopy(world_spec)
+    spec2["perturb"] = {"eps": eps, "seed": 12345}
+    _, trB, _ = run_traced(spec2, ops)
+    verdicts, counters, maxima = [], {}, {}
+    compare_traces(trA, trB, lambda m, A: A, lambda F: F, tol_fn, prop, "noise", verdicts,
+                   counters, maxima)
+    worst = maxima.get("noise_diff_over_tol", 0.0)
+    if verdicts:
+        worst = max(worst, 1.0)
+    return worst
+
+
+def confirm_chain(scn, run, bad_of, tol_fn, prop, counters, eps=1e-9):
+    """Decide whether a twin discrepancy is a violation of a property that holds
+    'within solver tolerance'.  A genuine violation is generic: it persists when
+    (1) the solver tolerance is tightened, (2) the initial textures of BOTH worlds get the
+    same tiny deterministic perturbation (which breaks exact symmetries between grains whose
+    numerical tie-breaking by rounding noise is a knife edge, not a property of the code),
+    and (3) the history does not amplify such a perturbation to the tolerance.
+    Returns True when the discrepancy is confirmed."""
+    import copy
+
+    s2 = scn
+    if scn["world"].get("solver", {}).get("tol") != "tight":
+        s2 = copy.deepcopy(scn)
+        s2["world"]["solver"] = {"tol": "tight"}
+        if not bad_of(run(s2)):
+            counters["default_solver_outlier_not_confirmed_by_tight_solver"] = 1
+            return False
+    for pseed in (101, 202):
+        s3 = copy.deepcopy(s2)
+        s3["world"]["perturb"] = {"eps": eps, "seed": pseed}
+        if not bad_of(run(s3)):
+            counters["knife_edge_not_reproduced_under_perturbation"] = 1
+            return False
+    worst = conditioning(s2["world"], s2["ops"], tol_fn, eps, prop)
+    if worst > 0.1:
+        counters["ill_conditioned_history_not_judged"] = 1
+        return False
+    counters["violation_confirmed"] = 1
+    return True
